@@ -227,6 +227,25 @@ func NewPerIPLimiter(rate float64, burst int, cleanupInterval time.Duration) *Pe
 	}
 }
 
+// bucket returns the token bucket of an IP, creating it if needed (and running
+// the periodic cleanup exactly as Allow does).
+func (pl *PerIPLimiter) bucket(ip string) *TokenBucket {
+	pl.mu.Lock()
+	defer pl.mu.Unlock()
+
+	if time.Since(pl.lastCleanup) > pl.cleanupInterval {
+		pl.cleanup()
+		pl.lastCleanup = time.Now()
+	}
+
+	limiter, exists := pl.limiters[ip]
+	if !exists {
+		limiter = NewTokenBucket(pl.rate, pl.burst)
+		pl.limiters[ip] = limiter
+	}
+	return limiter
+}
+
 // Allow checks if a request from the given IP can proceed
 func (pl *PerIPLimiter) Allow(ip string) bool {
 	pl.mu.Lock()
@@ -375,6 +394,7 @@ type RateLimiter struct {
 	fileHandlesPerIP     sync.Map // map[IP]int
 	fileHandlesGlobal    int
 	fileHandlesMu        sync.Mutex
+	requestMu            sync.Mutex // makes AllowRequest's check-then-take atomic
 }
 
 // NewRateLimiter creates a new rate limiter with the given configuration
@@ -387,35 +407,36 @@ func NewRateLimiter(config RateLimiterConfig) *RateLimiter {
 	}
 }
 
-// AllowRequest checks if a request should be allowed
+// AllowRequest checks if a request should be allowed.
+//
+// A request has to fit within every applicable limit (global, per-IP,
+// per-connection) before a token is taken from any of them, so that a request
+// refused by one limiter -- for example a client over its own per-IP limit --
+// does not drain capacity that other clients share.
 func (rl *RateLimiter) AllowRequest(ip string, connID string) bool {
-	// Check global limit first
-	if !rl.globalLimiter.Allow() {
-		return false
-	}
+	rl.requestMu.Lock()
+	defer rl.requestMu.Unlock()
 
-	// Check per-IP limit
-	if !rl.perIPLimiter.Allow(ip) {
-		return false
-	}
+	buckets := []*TokenBucket{rl.globalLimiter, rl.perIPLimiter.bucket(ip)}
 
-	// Check per-connection limit if enabled
+	// Per-connection limit if enabled
 	if rl.config.PerConnectionRequestsPerSecond > 0 {
-		if limiterInterface, loaded := rl.perConnectionLimiter.Load(connID); loaded {
-			limiter := limiterInterface.(*TokenBucket)
-			if !limiter.Allow() {
-				return false
-			}
-		} else {
+		limiterInterface, loaded := rl.perConnectionLimiter.Load(connID)
+		if !loaded {
 			newLimiter := NewTokenBucket(float64(rl.config.PerConnectionRequestsPerSecond), rl.config.PerConnectionBurstSize)
-			limiterInterface, _ := rl.perConnectionLimiter.LoadOrStore(connID, newLimiter)
-			limiter := limiterInterface.(*TokenBucket)
-			if !limiter.Allow() {
-				return false
-			}
+			limiterInterface, _ = rl.perConnectionLimiter.LoadOrStore(connID, newLimiter)
+		}
+		buckets = append(buckets, limiterInterface.(*TokenBucket))
+	}
+
+	for _, b := range buckets {
+		if b.Tokens() < 1.0 {
+			return false
 		}
 	}
-
+	for _, b := range buckets {
+		b.Allow()
+	}
 	return true
 }
 
